@@ -204,8 +204,13 @@ def m_pcursor_position(ex, a, callee, canon):
 
 @model(r"(^|::)Script::from_bytes$|(^|::)Script::from_coinbase_bytes$")
 def m_script_identity(ex, a, callee, canon):
-    """scripts are opaque in the transaction layer: parsing a script yields the script with those bytes (C02's domain)"""
-    return ok(Struct("Script", [Bytes(ex.bytes_of(a[0]))]))
+    """scripts are opaque in the transaction layer: parsing a script yields the script with those bytes (C02's domain);
+    which constructor was used is recorded: coinbase data must be kept verbatim (it need not be a script at all)"""
+    s = ex.bytes_of(a[0])
+    if not hasattr(ex, "recorded"):
+        ex.recorded = []
+    ex.recorded.append(("script_ctor", {"kind": "verbatim" if canon.endswith("from_coinbase_bytes") else "tokenised", "bytes": s}))
+    return ok(Struct("Script", [Bytes(s)]))
 
 
 @model(r"^(std::vec::|alloc::vec::)?from_elem$")
